@@ -2,10 +2,18 @@ from vp.api import Q, Mutant
 TITLE = "The red-black tree keeps order and balance"
 U = "parsec/class/parsec_rbtree.c"
 OPS = {"insert": 0, "remove": 1, "update": 2, "find": 3, "find_or_larger": 4, "minimum": 5, "foreach": 6}
-OUTSIDE = []
-ASSUMPTIONS = []
-BOUNDS = {}
-CLAIMED = False
+OUTSIDE = ["trees with more nodes than the bound N (the step is inductive in the number of OPERATIONS, not in the tree size: "
+           "histories of any length are covered as long as the tree never holds more than N nodes)",
+           "parsec_rbtree_init/_fini beyond the base-case query (object system constructors)",
+           "concurrent use (the tree has no internal synchronisation; zone_malloc serialises callers)"]
+ASSUMPTIONS = ["caller contract of insert: the node is not in the tree and no stored node has the same key (zone_malloc.c merges equal sizes into a per-node list before inserting)",
+               "caller contract of remove/update_node/minimum: the node is in the tree",
+               "pre-state = ANY structure satisfying the representation invariant written in the harness (valid_abs): nil sentinel black with nil children, "
+               "root black, parent/child links mutually consistent, acyclic, no red node with a red child, equal black height on every root-nil path, "
+               "strict BST order against every ancestor; nil's parent pointer arbitrary (CLRS leaves it dirty)",
+               "the same invariant is asserted after the operation, so the step composes to histories of unbounded length"]
+BOUNDS = {"quick": {"nodes": "<=3 (all operations), <=4 (all but update_node)", "keys": "any int (symbolic)"},
+          "thorough": {"nodes": "<=4 (all operations), <=5 insert/remove/queries", "keys": "any int (symbolic)"}}
 # maximal height (nodes on the longest root-leaf path) of a red-black tree with n nodes
 H = {0: 0, 1: 1, 2: 2, 3: 2, 4: 3, 5: 3, 6: 4, 7: 4}
 
@@ -30,14 +38,47 @@ def uw(op, n):
         return [R + "minimum.0:%d" % (h + 1)]
     return []
 
+FUN = {"insert": ["parsec_rbtree_insert", "parsec_rbtree_insert_fixup", "parsec_rbtree_left_rotate", "parsec_rbtree_right_rotate"],
+       "remove": ["parsec_rbtree_remove", "parsec_rbtree_delete_fixup", "parsec_rbtree_transplant", "parsec_rbtree_minimum", "rotations"],
+       "update": ["parsec_rbtree_update_node", "parsec_rbtree_find", "parsec_rbtree_remove", "parsec_rbtree_insert"],
+       "find": ["parsec_rbtree_find"], "find_or_larger": ["parsec_rbtree_find_or_larger"],
+       "minimum": ["parsec_rbtree_minimum"], "foreach": ["parsec_rbtree_foreach", "parsec_rbtree_foreach_node"]}
+
 def queries(ctx):
     qs = []
-    for n in (3, 4):
-        for op, v in OPS.items():
-            qs.append(Q("%s_n%d" % (op, n), ["rb.c"], defs=["N=%d" % n, "OP=%d" % v], unwind=n + 1, unwindset=uw(op, n),
-                        units=[U, "parsec/class/parsec_rbtree.h"], object_bits=10, timeout=1800,
-                        info={}))
+    def add(op, n, tiers=("quick", "thorough"), timeout=1800, slow=False):
+        qs.append(Q("%s_n%d" % (op, n), ["rb.c"], defs=["N=%d" % n, "OP=%d" % OPS[op]], unwind=n + 1, unwindset=uw(op, n),
+                    units=[U, "parsec/class/parsec_rbtree.h"], object_bits=10, timeout=timeout, tiers=tiers, slow=slow,
+                    info={"symbolic": ["pre-state tree: any valid red-black tree of 0..%d nodes over %d static node objects (shape, colours, which objects are members)" % (n, n),
+                                       "keys: any int", "the node / key the operation is applied to", "nil sentinel's stale parent pointer"],
+                          "enumerated": ["operation kind (one query each)", "node bound N"],
+                          "stubs": ["none (parsec_rbtree.c included whole; object-system constructors not reached)"],
+                          "bounds": {"nodes": n, "loop bounds of the real code": uw(op, n)},
+                          "functions": FUN[op]}))
+    for op in OPS:
+        add(op, 3)
+        if op != "update":
+            add(op, 4)
+    add("update", 4, tiers=("thorough",), timeout=3400)
+    for op in ("insert", "remove", "find", "find_or_larger", "minimum", "foreach"):
+        add(op, 5, tiers=("thorough",), timeout=3400)
     return qs
 
 def mutants(ctx):
-    return []
+    return [
+        Mutant("insert_fixup_grandparent_not_red", U, "                y->color = PARSEC_RBTREE_BLACK;\n                z->parent->parent->color = PARSEC_RBTREE_RED;",
+               "                y->color = PARSEC_RBTREE_BLACK;", queries=["insert_n4"]),
+        Mutant("left_rotate_child_parent_not_updated", U, "    if (LEFT(y) != tree->nil) {\n        LEFT(y)->parent = x;\n    }", "", queries=["remove_n4", "insert_n4"]),
+        Mutant("remove_successor_keeps_own_colour", U, "        y->color = z->color;", "", queries=["remove_n3"]),
+        Mutant("delete_fixup_sibling_colour", U, "                w->color = x->parent->color;\n                x->parent->color = PARSEC_RBTREE_BLACK;\n                RIGHT(w)->color = PARSEC_RBTREE_BLACK;",
+               "                x->parent->color = PARSEC_RBTREE_BLACK;\n                RIGHT(w)->color = PARSEC_RBTREE_BLACK;", queries=["remove_n4"]),
+        Mutant("transplant_parent_missing", U, "    v->parent = u->parent;", "    if (v != tree->nil) v->parent = u->parent;", queries=["remove_n3"]),
+        Mutant("find_or_larger_forgets_candidate", U, "            larger  = current;\n            current = LEFT(current);", "            if (larger == tree->nil) larger  = current;\n            current = LEFT(current);", queries=["find_or_larger_n3"]),
+        Mutant("find_goes_wrong_way", U, "        } else if (compval < data) {\n            current = RIGHT(current);\n        } else {\n            current = LEFT(current);\n        }\n    }\n    return NULL; // data not found",
+               "        } else if (compval <= data) {\n            current = LEFT(current);\n        } else {\n            current = RIGHT(current);\n        }\n    }\n    return NULL; // data not found", queries=["find_n3"]),
+        Mutant("update_no_duplicate_check_on_reinsert", U, "        if (parsec_rbtree_find(tree, newdata) != NULL) return PARSEC_ERR_EXISTS;", "", queries=["update_n3"]),
+        Mutant("update_pred_compare_off_by_one", U, "            if (pk  > newdata) needs_reinsert = true;", "            if (pk  > newdata + 1) needs_reinsert = true;", queries=["update_n3"]),
+    ]
+
+CLAIMED = False
+MANIFEST = {}
